@@ -1,7 +1,7 @@
 (* C20 — theorems (statements in full; proofs in ProofsA..D). The model follows /repo after the
    nine C20 fix: commits (025b717 6c29d69 941ab7d a355167 e099dce 1b429d0 0a72c3c c72865a 6e820e7). *)
 From Coq Require Import List NArith ZArith Bool.
-From LTV.C20 Require Import ParamsGen Model ProofsA ProofsB ProofsC ProofsD.
+From LTV.C20 Require Import ParamsGen Model ProofsA ProofsB ProofsC ProofsD Fetcher.
 Import ListNotations.
 Local Open Scope N_scope.
 
@@ -126,3 +126,15 @@ Theorem pending_not_scheduled_before_0a72c3c :
     [Connect 0; Recv 0 [hs3x0]; SetBlocked 0 true; Recv 0 [req]; Recv 0 [req]; Tick; SetBlocked 0 false]) = false.
 Proof. exact ProofsD.pending_not_scheduled_before_0a72c3c. Qed.
 Print Assumptions pending_not_scheduled_before_0a72c3c.
+
+(* fetcher side (magnet): the acceptance gate, SHA-1 = any function H (Section variable) *)
+Theorem magnet_completes_only_verified : forall (H : list N -> list N) want ops d,
+  f_done (frun H want ops) = Some d -> H d = want.
+Proof. exact Fetcher.magnet_completes_only_verified. Qed.
+Print Assumptions magnet_completes_only_verified.
+
+Theorem magnet_same_torrent : forall (H : list N -> list N) orig ops d,
+  (forall x, H x = H orig -> x = orig) ->
+  f_done (frun H (H orig) ops) = Some d -> d = orig.
+Proof. exact Fetcher.magnet_same_torrent. Qed.
+Print Assumptions magnet_same_torrent.
